@@ -51,6 +51,11 @@ def random_tree(rng, size, max_depth=30, names=None, text_alph=ALPH, p_ns=0.25, 
             uri = rng.choice(URIS + ["http://www.w3.org/XML/1998/namespace"])
             n.add_extras(rng.choice(["{" + uri + "}" + rng.choice(["lang", "id", "x"]), rng.choice(PREFIXES + ["xml"]) + ":" + rng.choice(["lang", "id", "x"])]),
                          ustr(rng, 6, text_alph))
+        if rng.random() < p_extras / 4:
+            # the qualified attributes real documents carry, with the values editors leave in them (wrapped over lines, padded)
+            n.add_extras(rng.choice(["xsi:schemaLocation", "xsi:type", "xsi:nil", "xml:lang", "xml:space"]),
+                         rng.choice(["https://eml.ecoinformatics.org/eml-2.2.0   https://example.org/eml.xsd\n      urn:a  urn:b", " padded ", "true",
+                                     "a  b", "en-US", "preserve", ""]))
         if rng.random() < p_prefix:
             n.prefix = rng.choice(PREFIXES)
         if rng.random() < p_ns:
